@@ -52,6 +52,14 @@ fn hdrs(buf: &[u8], h: &[Header<'_>]) -> String {
 }
 
 fn call(entry: Entry, cfg: u8, cap: usize, buf: &[u8]) -> String {
+    // a panic (e.g. an arithmetic overflow that only exists in the dev profile) is a result too
+    match std::panic::catch_unwind(|| call_inner(entry, cfg, cap, buf)) {
+        Ok(s) => s,
+        Err(_) => "PANIC".to_string(),
+    }
+}
+
+fn call_inner(entry: Entry, cfg: u8, cap: usize, buf: &[u8]) -> String {
     let c = make_config(cfg);
     let mut arr = vec![EMPTY_HEADER; cap];
     match entry {
@@ -278,6 +286,42 @@ fn unhex(s: &str) -> Vec<u8> {
     (0..s.len() / 2).map(|i| u8::from_str_radix(&s[2 * i..2 * i + 2], 16).unwrap()).collect()
 }
 
+/// Only the parse: what `valgrind --tool=callgrind --toggle-collect=verif_work_parse` measures.
+/// Input and header array are built by the caller.
+#[no_mangle]
+#[inline(never)]
+pub fn verif_work_parse(entry: u8, cfg: u8, arr: &mut [Header<'static>], buf: &'static [u8]) -> u64 {
+    let c = make_config(cfg);
+    match entry {
+        0 => {
+            let mut r = Request::new(arr);
+            match c.parse_request(&mut r, buf) {
+                Ok(Status::Complete(n)) => n as u64 * 4 + 1,
+                Ok(Status::Partial) => 2,
+                Err(_) => 3,
+            }
+        }
+        1 => {
+            let mut r = Response::new(arr);
+            match c.parse_response(&mut r, buf) {
+                Ok(Status::Complete(n)) => n as u64 * 4 + 1,
+                Ok(Status::Partial) => 2,
+                Err(_) => 3,
+            }
+        }
+        2 => match httparse::parse_headers(buf, arr) {
+            Ok(Status::Complete((n, _))) => n as u64 * 4 + 1,
+            Ok(Status::Partial) => 2,
+            Err(_) => 3,
+        },
+        _ => match httparse::parse_chunk_size(buf) {
+            Ok(Status::Complete((n, _))) => n as u64 * 4 + 1,
+            Ok(Status::Partial) => 2,
+            Err(_) => 3,
+        },
+    }
+}
+
 struct Family {
     name: &'static str,
     entry: Entry,
@@ -313,6 +357,10 @@ fn families() -> Vec<Family> {
         Family { name: "chunk-whitespace-run", entry: Entry::Chunk, cfg: 0, gen: |n| rep(b"1f", b" \t", n, b";x\r\n") },
         Family { name: "tiny-headers", entry: Entry::Req, cfg: 0, gen: |n| rep(RQ, b"a:b\r\n", n, b"\r\n") },
         Family { name: "tiny-headers-parse_headers", entry: Entry::Headers, cfg: 0, gen: |n| rep(b"", b"a:b\n", n, b"\n") },
+        Family { name: "minimal-headers-parse_headers", entry: Entry::Headers, cfg: 0, gen: |n| rep(b"", b"a:\n", n, b"\n") },
+        Family { name: "minimal-headers-request", entry: Entry::Req, cfg: 0, gen: |n| rep(b"GET / HTTP/1.1\n", b"a:\n", n, b"\n") },
+        Family { name: "minimal-headers-response", entry: Entry::Resp, cfg: 0, gen: |n| rep(b"HTTP/1.1 200\n", b"b:\n", n, b"\n") },
+        Family { name: "huge-obs-text-reason", entry: Entry::Resp, cfg: 0, gen: |n| rep(b"HTTP/1.1 200 ", b"\xe9", n, b"\r\n\r\n") },
         Family { name: "empty-value-headers", entry: Entry::Resp, cfg: 0, gen: |n| rep(RS, b"a:\r\n", n, b"\r\n") },
         Family { name: "folded-lines", entry: Entry::Resp, cfg: 2, gen: |n| rep(b"HTTP/1.1 200 OK\r\nH: x\r\n", b" y\r\n", n, b"\r\n") },
         Family { name: "folded-empty-lines", entry: Entry::Resp, cfg: 2, gen: |n| rep(b"HTTP/1.1 200 OK\r\nH:\r\n", b" \r\n", n, b"\r\n") },
@@ -353,6 +401,7 @@ fn families() -> Vec<Family> {
 
 fn main() {
     let args: Vec<String> = std::env::args().collect();
+    std::panic::set_hook(Box::new(|_| {}));
     let backend = args.iter().position(|a| a == "--backend").map(|i| args[i + 1].clone()).unwrap_or_else(|| "native".into());
     match args.get(1).map(|s| s.as_str()) {
         Some("run") => {
@@ -414,12 +463,35 @@ fn main() {
                 }
             };
             let mut input = (f.gen)(n);
-            // variant: "complete" (default) or "truncated" (the last 3 bytes not yet received)
-            if args.get(4).map(|s| s.as_str()) == Some("truncated") && input.len() > 3 {
-                input.truncate(input.len() - 3);
+            // variants: "complete" (default); "unterminated" (the final line ends and one more byte
+            // not yet received); "error" (a NUL in place of the final line ends)
+            let v = args.get(4).map(|s| s.as_str()).unwrap_or("complete");
+            if v != "complete" {
+                while matches!(input.last(), Some(b'\r') | Some(b'\n')) {
+                    input.pop();
+                }
+                if v == "unterminated" {
+                    input.pop();
+                } else {
+                    input.extend_from_slice(b"\0\r\n\r\n");
+                }
             }
-            let r = call(f.entry, f.cfg, n / 3 + 8, &input);
-            println!("{} {}", input.len(), &r[..r.len().min(40)]);
+            let input: &'static [u8] = Box::leak(input.into_boxed_slice());
+            let arr: &'static mut [Header<'static>] = Box::leak(vec![EMPTY_HEADER; n / 3 + 8].into_boxed_slice());
+            let e = match f.entry {
+                Entry::Req => 0,
+                Entry::Resp => 1,
+                Entry::Headers => 2,
+                Entry::Chunk => 3,
+            };
+            let r = verif_work_parse(e, f.cfg, arr, input);
+            println!("{} {}", input.len(), r);
+        }
+        Some("info") => {
+            #[cfg(httparse_verif)]
+            println!("{}", httparse::_verif::build_info());
+            #[cfg(not(httparse_verif))]
+            println!("unknown");
         }
         Some("memcheck") => {
             // meant to run under `valgrind --partial-loads-ok=no`: every buffer is an exact-size heap
